@@ -342,7 +342,9 @@ def run_lengths(array, highlevel=True, behavior=None):
             if isinstance(diffs, ak.highlevel.Array):
                 diffs = nplike.asarray(diffs)
             if offsets is not None:
-                diffs[offsets[1:-1] - 1] = True
+                boundaries = offsets[1:-1]
+                boundaries = boundaries[(boundaries > 0) & (boundaries < len(data))]
+                diffs[boundaries - 1] = True
             positions = nplike.nonzero(diffs)[0]
             full_positions = nplike.empty(len(positions) + 2, np.int64)
             full_positions[0] = 0
